@@ -35,11 +35,14 @@ pub struct Script {
     pub cut_at: usize,
     /// virtual microseconds: connect, head, between chunks
     pub latency: [u64; 3],
+    /// false: the reply announces no Content-Length (chunked or close-delimited framing): `content_length()` is None
+    /// and the end of the body is the end of the stream
+    pub announce_length: bool,
 }
 
 impl Default for Script {
     fn default() -> Self {
-        Script { status: 200, body: Vec::new(), transport: Transport::Refused, splits: vec![], cut_at: 0, latency: [0, 0, 0] }
+        Script { status: 200, body: Vec::new(), transport: Transport::Refused, splits: vec![], cut_at: 0, latency: [0, 0, 0], announce_length: true }
     }
 }
 
@@ -121,6 +124,7 @@ struct State {
     current_task: usize,
     clients_created: u64,
     bodies: Vec<Vec<u8>>, // per conn: the script body
+    announced: Vec<bool>, // per conn: was a Content-Length announced
 }
 
 thread_local! {
@@ -213,7 +217,7 @@ pub fn open_connection(request: Request) -> usize {
                 }
                 t += script.latency[2];
                 // (a 204 reply has no body by definition: whatever length the server announced is ignored, as hyper does)
-                if (script.transport == Transport::ClosedMidBody && !body.is_empty()) || (script.transport == Transport::ClosedAfterBody && script.status != 204) {
+                if (script.transport == Transport::ClosedMidBody && !body.is_empty() && script.announce_length) || (script.transport == Transport::ClosedAfterBody && script.status != 204 && script.announce_length) {
                     push(&mut s, t, Step::CloseMidBody);
                 } else {
                     push(&mut s, t, Step::BodyEnd);
@@ -221,6 +225,7 @@ pub fn open_connection(request: Request) -> usize {
             }
         }
         s.bodies.push(body);
+        s.announced.push(script.announce_length);
         id
     })
 }
@@ -249,7 +254,14 @@ pub fn poll_chunk(conn: usize, read: usize) -> ChunkState {
 }
 
 pub fn content_length(conn: usize) -> Option<u64> {
-    SIM.with(|s| s.borrow().bodies.get(conn).map(|b| b.len() as u64))
+    SIM.with(|s| {
+        let s = s.borrow();
+        if s.announced.get(conn).copied().unwrap_or(true) {
+            s.bodies.get(conn).map(|b| b.len() as u64)
+        } else {
+            None
+        }
+    })
 }
 
 pub fn poll_body(conn: usize) -> BodyState {
